@@ -54,7 +54,8 @@ def run(report, db, tier):
     consts = {}
     from ..callgraph import CallGraph
     from .. import shared
-    S = shared.summariser(db, CallGraph(db), implicit_raises=False)
+    # counted loops stay loops here (the rules bound the iteration number)
+    S = shared.summariser(db, CallGraph(db), implicit_raises=False, unroll=0)
     check_read(report, db, S, vi, vl, rd, ref, consts)
     check_send(report, db, S, sd, consts)
     check_constants(report, db, F, S, basic, rd, sd, sz, ref, consts)
